@@ -1080,3 +1080,4 @@ V("C20", "save-pops-force-overwrite", TRJ, "        # run the saver, and return 
 V("C20", "twin-save-reads-force-overwrite", TRJ, "        # run the saver, and return whatever output it gives\n        return saver(filename, **kwargs)", "        if not kwargs.get(\"force_overwrite\", True) and os.path.exists(filename):\n            raise OSError('\"%s\" already exists' % filename)\n        return saver(filename, **kwargs)", None)
 V("C04", "hash-bonds-in-list-order", TOPF, "        hash_value ^= hash(tuple(sorted(self._bonds)))", "        hash_value ^= hash(tuple(self._bonds))", "C04-R3")
 V("C04", "twin-hash-bonds-frozenset", TOPF, "        hash_value ^= hash(tuple(sorted(self._bonds)))", "        hash_value ^= hash(frozenset(self._bonds))", None)
+V("C19", "netcdf-atom-count-unchecked", NCF, "        if n_atoms != self.n_atoms:\n            raise ValueError(\n                \"coordinates has %d atoms, but the file holds %d atoms per frame\" % (n_atoms, self.n_atoms),\n            )\n", "", "C19-R2")
